@@ -61,9 +61,24 @@ Proof. exact nothing_handled_unless_communicating. Qed.
 Print Assumptions C07_nothing_handled_unless_communicating.
 
 (* a request that the application denies (on_commack_requested() = 1) is answered with COMMACK 1 and changes nothing (D41) *)
-Theorem C07_denied_request_does_not_establish : forall s, gcomm_step s (YInS1F13 false) = (s, if is s communication_WAIT_CRA || is s communication_COMMUNICATING then [YSendS1F14 1] else []).
-Proof. intro s. cbn [gcomm_step]. destruct (is s communication_WAIT_CRA); [reflexivity|]. destruct (is s communication_COMMUNICATING); reflexivity. Qed.
+Theorem C07_denied_request_does_not_establish : forall s,
+  gcomm_step s (YInS1F13 false) = (s, if is s communication_WAIT_CRA || is s communication_WAIT_DELAY || is s communication_COMMUNICATING then [YSendS1F14 1] else []).
+Proof. intro s. cbn [gcomm_step]. destruct (is s communication_WAIT_CRA); [reflexivity|]. destruct (is s communication_WAIT_DELAY); [reflexivity|]. destruct (is s communication_COMMUNICATING); reflexivity. Qed.
 Print Assumptions C07_denied_request_does_not_establish.
+
+(* a request of the peer is answered - and, accepted, establishes communication - also while this side waits for its retry delay to
+   expire (E30; D66: two sides that ignored each other's S1F13 in WAIT DELAY could miss each other forever) *)
+Theorem C07_request_answered_in_wait_delay : forall s, good s = true -> is s communication_WAIT_DELAY = true ->
+  is (fst (gcomm_step s (YInS1F13 true))) communication_COMMUNICATING = true /\ snd (gcomm_step s (YInS1F13 true)) = [YSendS1F14 0].
+Proof.
+  intros s Hg Hw.
+  assert (T : forallb (fun s0 => negb (good s0 && is s0 communication_WAIT_DELAY) ||
+              (is (fst (gcomm_step s0 (YInS1F13 true))) communication_COMMUNICATING && list_eqb yout_eqb (snd (gcomm_step s0 (YInS1F13 true))) [YSendS1F14 0])) all_gc = true)
+    by (vm_compute; reflexivity).
+  rewrite forallb_forall in T. specialize (T s (gc_in s (good_lt s Hg))). rewrite Hg, Hw in T. cbn [andb negb orb] in T.
+  apply andb_true_iff in T as [A B]. split; [exact A|]. apply youts_eq. exact B.
+Qed.
+Print Assumptions C07_request_answered_in_wait_delay.
 
 (* ... and neither does a request whose S1F14 cannot be sent (the write is refused: the link is just going down) - no exchange was completed (D63) *)
 Theorem C07_unanswerable_request_does_not_establish : forall s, gcomm_step s YInS1F13Unanswerable = (s, []).
